@@ -5,7 +5,7 @@
    leaf order a permutation, initial callback pairs each exactly once.  The theorems below are about
    the Gallina transcription (Model/Linkage.v) and about the reference functions. *)
 From Coq Require Import Permutation.
-From HpoV Require Import Model.Base Model.Group Model.Linkage Proofs.C17P.
+From HpoV Require Import Model.Base Model.Group Model.Linkage Run.C17 Proofs.C17P Proofs.C17R.
 
 (* utils::Combinations, for EVERY fuel: what the iterator state machine yields from state
    (idx1, idx2) is the rest of row idx1 followed by all later rows, live entries only *)
@@ -30,7 +30,34 @@ Proof. exact closest_is_minimum. Qed.
 Theorem C17_leaf_order_permutation : forall idx target, sortN idx = target -> Permutation idx target.
 Proof. exact sorted_form_gives_permutation. Qed.
 
+(* ---- soundness of the replay that spec_C17 runs on the crate's reported merges ---- *)
+
+(* if the replay accepts a merge list it IS a dendrogram over the n inputs: one new node per merge
+   (live + merges = inputs), every merge has lhs < rhs < n + k and the reported size is
+   leaves(lhs) + leaves(rhs), recorded as the size of node n + k; live nodes and merged nodes are,
+   together and WITHOUT REPETITION, exactly 0 .. n+|merges|-1 (every input and every intermediate
+   cluster is merged at most once, only live nodes are unmerged); the leaves of the live nodes
+   are the n inputs *)
+Theorem C17_accepted_merges_form_a_dendrogram : forall mt table mode (sets : list (list N)) dm0 cs live dm sizes,
+  replay mt table mode (Nlen sets) (numbered 0 sets, dm0, []) cs = Some (live, dm, sizes) ->
+  let n := Nlen sets in
+  (length live + length cs = length sets)%nat /\
+  (forall k c, nth_error cs k = Some c ->
+     lhs c < rhs c /\ rhs c < n + N.of_nat k /\ nth_error sizes k = Some (csize c) /\
+     csize c = sz n (firstn k sizes) (lhs c) + sz n (firstn k sizes) (rhs c)) /\
+  Permutation (map fst live ++ flat_map (fun c => [lhs c; rhs c]) cs) (ids_upto (length sets + length cs)) /\
+  total n sizes (map fst live) = n.
+Proof. exact replay_sound. Qed.
+
+(* with a single node left (as spec_C17 demands): exactly n-1 merges and the last size is n *)
+Theorem C17_single_root_means_n_minus_1_merges : forall mt table mode (sets : list (list N)) dm0 cs x cx dm sizes,
+  replay mt table mode (Nlen sets) (numbered 0 sets, dm0, []) cs = Some ([(x, cx)], dm, sizes) ->
+  (length cs + 1 = length sets)%nat /\ sz (Nlen sets) sizes x = Nlen sets.
+Proof. exact replay_single_root. Qed.
+
 Print Assumptions C17_combinations_state_machine.
 Print Assumptions C17_initial_pairs_each_once.
 Print Assumptions C17_closest_is_minimum.
 Print Assumptions C17_leaf_order_permutation.
+Print Assumptions C17_accepted_merges_form_a_dendrogram.
+Print Assumptions C17_single_root_means_n_minus_1_merges.
